@@ -154,6 +154,9 @@ func (iter *queryIterator) NextBytes() []byte {
 		return nil
 	}
 	if !iter.rows.Next() {
+		// Next also returns false when stepping the statement failed (e.g. a JSON operator applied to a body that is
+		// not JSON): report that from Close instead of passing off the rows read so far as the complete result.
+		iter.err = iter.rows.Err()
 		return nil
 	}
 
